@@ -229,8 +229,8 @@ CONFIG = {
                 "Non-trivial = sequence with a repeated request or an aliasing-sensitive accepted request with >= 1 bias / report "
                 "case with all alternatives considered or the current choice from the considered set; distinct by case text",
         "assumptions": ["the probe hands `current` on unchanged (same pointer), so it observes exactly what the next stage receives"],
-        "quick": {"checks": 12000, "shards": 8, "min_nontrivial": 20000},
-        "thorough": {"checks": 150000, "shards": 14, "min_nontrivial": 250000, "timeout": 3000},
+        "quick": {"checks": 12000, "shards": 8, "min_nontrivial": 20000, "post": {"run": "^TestC09Corpus$", "procs": 3}},
+        "thorough": {"checks": 150000, "shards": 14, "min_nontrivial": 250000, "timeout": 3000, "post": {"run": "^TestC09Corpus$", "procs": 8}},
         "mandatory_labels": ["C09:spare-capacity", "C09:repeated-request", "C09:aliasing-sensitive", "C09:current-choice-from-considered", "C09:all-considered"],
     },
     "C10": {
@@ -260,10 +260,10 @@ CONFIG = {
                 "request, nothing else; constraint mutants never answered with a ranking; unknown method/bias errors list every "
                 "registered name; process survives; GET /api/preferenceFunctions has a schema object per method. Non-trivial = body "
                 "that passes JSON binding (reaches MakeDecision); distinct by (kind, mutation, body)",
-        "assumptions": ["bodies <= 64 KiB, <= 6 criteria, <= 7 alternatives; resource exhaustion by size (e.g. series coefficient below 1e-3) is outside what is explored",
+        "assumptions": ["bodies <= 64 KiB; generated requests have <= 6 criteria and <= 7 alternatives, one hostile class declares 20-70 Choquet criteria without their 2^n weights; the test processes and the server child run under an 8 GiB address-space limit so that unbounded allocation kills them (a violation) rather than the machine; other resource exhaustion by size (e.g. a valid 20-criteria Choquet request with its million weights) is outside what is explored",
                         "a valid request answered 400 only because its result is not finite (json: unsupported value) is counted, not judged (C07 decides combinations)"],
-        "quick": {"checks": 6000, "shards": 8, "min_nontrivial": 20000, "server": True, "death_is_violation": True, "maxstack": 67108864},
-        "thorough": {"checks": 120000, "shards": 14, "min_nontrivial": 400000, "server": True, "death_is_violation": True, "maxstack": 67108864, "timeout": 3000,
+        "quick": {"checks": 6000, "shards": 8, "min_nontrivial": 20000, "server": True, "death_is_violation": True, "maxstack": 67108864, "rlimit_as_mb": 8192},
+        "thorough": {"checks": 120000, "shards": 14, "min_nontrivial": 400000, "server": True, "death_is_violation": True, "maxstack": 67108864, "rlimit_as_mb": 8192, "timeout": 3000,
                      "fuzz": {"targets": ["FuzzC20Bytes"], "seconds": 180, "workers": 12}},
         "mandatory_labels": ["C20:C20:valid:200", "C20:C20:constraint:400", "C20:C20:type:200", "C20:C20:type:400", "C20:C20:bytes:400",
                              "C20:C20server:constraint:400", "C20:C20server:valid:200", "C20:known-good-rechecked"],
